@@ -31,6 +31,8 @@ Attrs == <<
   [n |-> "sysctls", top |-> FALSE, p |-> <<"sysctls">>, alts |-> {M1("net.core.somaxconn", S("1024")), Sq1(S("net.core.somaxconn=2048")), M1("net.ipv4.ip_forward", S("1"))}],
   [n |-> "annotations", top |-> FALSE, p |-> <<"annotations">>, alts |-> {M1("k1", S("v1")), Sq2(S("k1=v2"), S("k2=v3"))}],
   [n |-> "dns", top |-> FALSE, p |-> <<"dns">>, alts |-> {S("1.1.1.1"), Sq2(S("8.8.8.8"), S("1.1.1.1")), Sq1(S("9.9.9.9"))}],
+  [n |-> "env_file", top |-> FALSE, p |-> <<"env_file">>, alts |-> {S("./a.env"), Sq2(S("./b.env"), S("./a.env")), Sq1(M2("path", S("./a.env"), "required", B(FALSE)))}],
+  [n |-> "label_file", top |-> FALSE, p |-> <<"label_file">>, alts |-> {S("./a.label"), Sq2(S("./b.label"), S("./a.label"))}],
   [n |-> "tmpfs", top |-> FALSE, p |-> <<"tmpfs">>, alts |-> {S("/run"), Sq2(S("/tmp"), S("/run"))}],
   [n |-> "cap_add", top |-> FALSE, p |-> <<"cap_add">>, alts |-> {Sq1(S("NET_ADMIN")), Sq2(S("SYS_TIME"), S("NET_ADMIN"))}],
   [n |-> "expose", top |-> FALSE, p |-> <<"expose">>, alts |-> {Sq1(S("80")), Sq2(S("80"), S("443"))}],
